@@ -359,6 +359,22 @@ func (ssc *StatefulSetController) adoptOrphanRevisions(set *apps.StatefulSet) er
 		}
 	}
 	if hasOrphans {
+		// A set that is being deleted adopts nothing.
+		if set.DeletionTimestamp != nil {
+			return nil
+		}
+		// Recheck with an uncached read before touching any revision, as pod
+		// adoption does (see getPodsForStatefulSet).
+		fresh, err := ssc.pcClient.AppsV1().StatefulSets(set.Namespace).Get(context.TODO(), set.Name, metav1.GetOptions{})
+		if err != nil {
+			return err
+		}
+		if fresh.UID != set.UID {
+			return fmt.Errorf("original StatefulSet %v/%v is gone: got uid %v, wanted %v", set.Namespace, set.Name, fresh.UID, set.UID)
+		}
+		if fresh.DeletionTimestamp != nil {
+			return fmt.Errorf("%v/%v has just been deleted at %v", set.Namespace, set.Name, fresh.DeletionTimestamp)
+		}
 		for i := range revisions {
 			if shouldSyncLabels(revisions[i]) {
 				revisions[i], err = syncLabels(ssc.kubeClient, set, revisions[i])
@@ -366,13 +382,6 @@ func (ssc *StatefulSetController) adoptOrphanRevisions(set *apps.StatefulSet) er
 					return err
 				}
 			}
-		}
-		fresh, err := ssc.pcClient.AppsV1().StatefulSets(set.Namespace).Get(context.TODO(), set.Name, metav1.GetOptions{})
-		if err != nil {
-			return err
-		}
-		if fresh.UID != set.UID {
-			return fmt.Errorf("original StatefulSet %v/%v is gone: got uid %v, wanted %v", set.Namespace, set.Name, fresh.UID, set.UID)
 		}
 		// Adopt the orphans only: the other listed revisions already have an
 		// owner and adopting them is an error.
